@@ -54,7 +54,8 @@ def main():
             for f in go_demos:
                 import re
                 names += re.findall(r"^func (Test\w+)\(", open(f).read(), re.M)
-            rc, out = sh(["go", "test", "-vet=off", "-count=1", "-run", "^(%s)$" % "|".join(names), "./" + pkg], cwd=wt, timeout=1200)
+            tags = ["-tags", "verif"] if any("go:build verif" in open(f).read() for f in go_demos) else []
+            rc, out = sh(["go", "test", "-vet=off", "-count=1"] + tags + ["-run", "^(%s)$" % "|".join(names), "./" + pkg], cwd=wt, timeout=1200)
             for f in go_demos:
                 os.remove(os.path.join(wt, pkg, "zz_seed_" + os.path.basename(f)))
             return rc, out[-1500:]
